@@ -14,6 +14,8 @@ def gen_case(rng, i):
     inv, outv = vs[: max(1, nv // 2)], vs[max(1, nv // 2):]
     shape = ["bounded", "bounded", "halfopen", "random", "infeasible", "free_var", "empty", "disconnected_infeasible",
              "presolve_trap", "vacuous_row", "near_equal_bounds", "print_twin", "huge_coefficient"][i % 13]
+    if i % 13 == 1 and (i // 13) % 2 == 1:
+        shape = "near_parallel"          # every other "bounded" slot
     if shape == "presolve_trap":
         nv = 3
         vs = gen.VARS6[3:]
@@ -70,6 +72,18 @@ def gen_case(rng, i):
         a = [({v: -K}, -lo), ({v: 1}, rng.randint(5, 10))]          # v >= lo/K (about 10^-6),  v <= 5..10
         g = gen.bounded_list_raw(rng, outv) if outv else []
         huge = ({v: 1}, True, "contract")
+    elif shape == "near_parallel":
+        # two NEARLY PARALLEL rows  x + y <= t + 1  and  x + (1 - e) y >= t + 1 - e t  (e = 1/1000 .. 1/2000) imply  y <= t ; a third, looser
+        # bound  y <= t + d  with e d < 10^-5 is redundant -- a solver that tolerates a violation of 10^-5 would stop at it (0.4 % .. 1.6 % off)
+        den, dl = rng.choice([(1000, 0.008), (500, 0.004), (2000, 0.016)])
+        t = rng.choice([1, 2, 3])
+        nv, vs = 2, ["x", "y"]
+        inv, outv = ["y"], ["x"]
+        a = [({"y": 1}, t + dl)]
+        g = [({"x": 1, "y": 1}, t + 1), ({"x": -1, "y": -(1 - 1.0 / den)}, -(t + 1 - float(t) / den))]
+        if rng.random() < 0.5:
+            g.reverse()
+        par = ({"y": 1}, True, "contract")
     elif shape == "vacuous_row":
         # ordinary rows together with a row that has no variable (what  x + 1 <= x  leaves): a contradiction when its constant is negative
         a = gen.bounded_list_raw(rng, inv)
@@ -94,6 +108,8 @@ def gen_case(rng, i):
         objs = [huge, ({inv[0]: 1}, True, "bounds"), (huge[0], True, "list")] + objs[:2]
     if shape == "near_equal_bounds":
         objs = [near, ({near[0].copy().popitem()[0]: 1}, near[0][inv[0]] > 0, "bounds"), (near[0], True, "list")] + objs[:2]
+    if shape == "near_parallel":
+        objs = [par, ({"y": 1}, True, "bounds"), ({"y": 2}, True, "list"), ({"x": 1, "y": 3}, True, "contract")] + objs[:1]
     if shape == "presolve_trap":
         objs = [(trap, True, "contract"), ({v: -c for v, c in trap.items()}, False, "contract"), (trap, True, "list"),
                 (trap, False, "contract"), ({v: -c for v, c in trap.items()}, True, "list")] + objs[:2]
